@@ -51,6 +51,17 @@ Definition merge_tag (ndep : nat) (groups : list (list nat)) : res (option (list
        | _ => if Nat.eqb (list_min all) 0 && Nat.eqb (list_max all) (ndep - 1) then Ok None else Ok (Some all)
        end.
 
+(* ... and where the merged data goes: key_for with that tag runs _check_chunk_number (consecutive integers) *)
+Definition merge_where (ndep : nat) (groups : list (list nat)) : res (option (list nat)) :=
+  do t <- merge_tag ndep groups;
+  match t with
+  | Some l => if negb (consecutive l) then Err E_BAD_GROUPS
+              (* a single job merged on its own would be written onto its own key: DataExistsError *)
+              else if existsb (fun g => if list_eq_dec Nat.eq_dec g l then true else false) groups then Err E_EXISTS
+              else Ok t
+  | None => Ok None
+  end.
+
 Section Store.
 Variable bytes : Type.
 Variable enc : Z -> list row -> bytes.            (* compressor id -> rows -> file content *)
